@@ -625,6 +625,46 @@ def extra_checks(seed):
         area = 12.0 * 2.0   # hexagon area 12, thickness 2
         ok2, d2 = close(F.reshape(-1, dim).sum(axis=0), np.array(load) * area)
         rec(simkey, "load-resultant", ok2, d2)
+    # two meshes in one history: energy identity and reaction balance after coming back (Set_Iter)
+    try:
+        from EasyFEA import Models, Simulations, SolverType
+        meshA, meshB = mesh_2d_fan(), mesh_2d_mixed()
+        simu = Simulations.Elastic(meshA, Models.Elastic.Isotropic(2, E=8.0, v=0.25, planeStress=True, thickness=2.0))
+        simu.solver = SolverType.scipy
+
+        def solve_on(mesh, fixed):
+            simu.Bc_Init()
+            simu.add_dirichlet(np.array(fixed), [0.0, 0.0], ["x", "y"])
+            simu.add_volumeLoad(mesh.nodes, [1.0, -2.0], ["x", "y"])
+            simu.Solve()
+            simu.Save_Iter()
+            return np.asarray(simu.Bc_vector_Neumann()).ravel().copy()
+
+        def energy_and_balance(label, fixed, F):
+            K = simu.Get_K_C_M_F()[0]
+            u = simu.displacement
+            ok1, d1 = (False, "K is %s but u has %d entries" % (K.shape, u.size)) if K.shape[0] != u.size else close(simu.Result("Wdef"), 0.5 * u @ (K @ u))
+            rec("Elastic:history", "history:%s:Wdef=half-uKu" % label, ok1, d1)
+            try:
+                dofs = simu.Bc_dofs_nodes(np.array(fixed), ["x", "y"])
+                R = np.zeros(simu.mesh.Nn * 2)
+                R[dofs] = simu.Calc_Reaction(dofs)
+                R[dofs] -= F[dofs]                      # reaction proper = K u - F on the constrained dofs
+                tot = R.reshape(-1, 2).sum(axis=0) + F.reshape(-1, 2).sum(axis=0)
+                rec("Elastic:history", "history:%s:reaction-balance" % label, bool(np.all(np.abs(tot) <= 1e-9 * np.abs(F).sum())), "sum reactions + total load = %s (total load %s)" % (tot.tolist(), F.reshape(-1, 2).sum(axis=0).tolist()))
+            except Exception as ex:
+                rec("Elastic:history", "history:%s:reaction-balance" % label, False, "%s: %s" % (type(ex).__name__, ex))
+        FA = solve_on(meshA, [4, 5])
+        energy_and_balance("meshA", [4, 5], FA)
+        simu.mesh = meshB
+        FB = solve_on(meshB, [0, 3])
+        energy_and_balance("meshB", [0, 3], FB)
+        simu.Set_Iter(0)
+        energy_and_balance("back-on-meshA", [4, 5], FA)
+        simu.Set_Iter(1)
+        energy_and_balance("back-on-meshB", [0, 3], FB)
+    except Exception:
+        rec("Elastic:history", "history:scenario", False, traceback.format_exc()[-500:], kind="harness")
     # constants are preserved by both conversions
     for simkey in ("Elastic:2d", "Elastic:3d", "Thermal:2d", "WeakForms:dof2", "Beam:2"):
         simu, meta = build(simkey)
